@@ -23,6 +23,7 @@ VALUE_OPS = {"set", "remove", "remove_all"}
 def run(ctx):
     P = ctx.program()
     pulled_chunks_are_flattened(ctx, P, "R10")
+    physical_reads_under_visible_counts(ctx, P, "R10i")
     E = ctx.effects()
     # ---- R1 index maintenance
     n = 0
@@ -312,3 +313,39 @@ def pulled_chunks_are_flattened(ctx, P, rule):
                         "avoids DataChunk::flatten): the selection vector a filter left on the chunk is ignored and rows are read by "
                         "physical position" % short_id(f.id), where=f.loc(t["line"]))
     ctx.floor(rule, n, 3, "operators that flatten the chunks they pull")
+
+
+def physical_reads_under_visible_counts(ctx, P, rule):
+    """Inventory (information only): functions of the execution layer that loop over 0..chunk.row_count() / len() - the
+    number of *visible* rows - and read a column at that loop index - a *physical* position - without flattening the chunk
+    in the same operator. On a chunk that carries a selection vector they read the wrong rows. The two that exist today
+    (FactorizedExpandOperator::process_chunk, StatsPartitionCollector::collect) are public API of grafeo-core but are not
+    constructed by any planner, so no query reaches them: latent, reported as information, never as a violation."""
+    out = []
+    for f in sorted(P.fns.values(), key=lambda f: f.id):
+        if "::tests::" in f.id or not f.id.startswith(("grafeo_core::execution::", "<grafeo_core::execution::")):
+            continue
+        fx = None
+        for bi, t in f.calls():
+            c = callee_name(t)
+            nm = c.split("::")[-1]
+            if "vector::ValueVector::" in c and nm.startswith("get_") and len(t["args"]) >= 2:
+                fx = fx or FlowCx(P, f)
+                it = fx.tags(t["args"][1])
+                vis = any(x in ("call:DataChunk::row_count", "call:DataChunk::len") for x in it)
+                phys = any(x in ("call:DataChunk::total_row_count", "call:DataChunk::selected_indices", "call:SelectionVector::iter",
+                                 "call:SelectionVector::get", "call:SelectionVector::as_slice") for x in it)
+                if vis and not phys and "agg:Range::Range" in it:
+                    owner = P.fns.get(f.parent) or f
+                    flat = any(callee_name(t2).endswith("DataChunk::flatten") for g in P.family(owner) for b2, t2 in g.calls())
+                    if not flat:
+                        out.append((f, t["line"]))
+    seen = set()
+    for f, ln in out:
+        if f.id in seen:
+            continue
+        seen.add(f.id)
+        ctx.ob(rule, "%s#physical-read-under-visible-count" % short_id(f.id), False, info=True,
+               what="latent: %s reads a column at the index of a loop over the visible row count without flattening the chunk; on a chunk "
+                    "with a selection vector it reads other rows than the selected ones. No planner constructs this operator / "
+                    "collector today, so no query reaches it (information only)" % short_id(f.id), where=f.loc(ln))
